@@ -18,52 +18,109 @@ impl<T> core::future::Future for Fut<T> { type Output = T; fn poll(self: core::p
 
 // ======== C41
 pub mod n0_future { pub mod task { pub struct JoinError; } }
-pub struct Endpoint;
-// the spawned run task.  Its tail (quoted from RouterBuilder::spawn, not verified: it sits behind a select! loop) is:
-//   protocols.shutdown().await; handler_cancel_token.cancel(); endpoint.close().await; ...join remaining tasks
-// and its first statement arms `done_token.drop_guard()`, so the done token is cancelled only when the task has finished or was aborted.
-pub uninterp spec fn run_finished(r: Router) -> bool;
-pub struct AbortOnDropHandle<T> { pub id: int, pub t: core::marker::PhantomData<T> }
-pub uninterp spec fn is_run_task_of(h: AbortOnDropHandle<()>, r: Router) -> bool;
-pub uninterp spec fn done_token_of(t: CancellationToken, r: Router) -> bool;
-pub uninterp spec fn task_slot_of(m: Mutex<Option<AbortOnDropHandle<()>>>, r: Router) -> bool;
-// awaiting the handle: Ok means the task ran to completion
-#[verifier::external_body]
-pub async fn await_handle(h: AbortOnDropHandle<()>) -> (r: Result<(), n0_future::task::JoinError>)
-    ensures r is Ok ==> forall|ro: Router| is_run_task_of(h, ro) ==> run_finished(ro)
-{ unimplemented!() }
-#[derive(Clone, Copy)]
-pub struct CancellationToken { pub id: int }
+pub struct Endpoint { pub id: int }
+impl Endpoint {
+    #[verifier::external_body] pub fn set_alpns(&self, alpns: Vec<Vec<u8>>) { unimplemented!() }
+    #[verifier::external_body] pub fn clone(&self) -> (r: Endpoint) ensures r == *self { unimplemented!() }
+}
+// ---- cancellation tokens with a ghost identity: `new()` makes an independent (root) token, `child_token()` one that is
+// also cancelled whenever its parent is, clones are the same token
+pub struct CancellationToken { pub id: int, pub parent: Option<int> }
+pub struct DropGuard;
 impl CancellationToken {
+    #[verifier::external_body]
+    pub fn new() -> (r: CancellationToken) ensures r.parent is None { unimplemented!() }
+    #[verifier::external_body]
+    pub fn child_token(&self) -> (r: CancellationToken) ensures r.parent == Some(self.id) { unimplemented!() }
+    #[verifier::external_body]
+    pub fn clone(&self) -> (r: CancellationToken) ensures r == *self { unimplemented!() }
     #[verifier::external_body]
     pub fn cancel(&self) { unimplemented!() }
     #[verifier::external_body]
     pub fn is_cancelled(&self) -> bool { unimplemented!() }
-    // completes only once the token is cancelled; for the done token that is the end of the run task (see above)
+    #[verifier::external_body]
+    pub fn drop_guard(self) -> DropGuard { unimplemented!() }
+    // completes only once THIS token is cancelled.  ASSUMPTION (stated): an independent token that was handed to a run
+    // loop as its done token is cancelled only by that loop's own drop guard, i.e. when the loop has finished or was
+    // aborted (nobody else calls cancel() on it: Router only ever cancels `cancel_token`).  For a child token nothing
+    // follows: it is cancelled as soon as its parent is.
     #[verifier::external_body]
     pub async fn cancelled(&self) -> (r: ())
-        ensures forall|ro: Router| done_token_of(*self, ro) ==> run_finished(ro)
+        ensures self.parent is None ==> run_finished(self.id)
     { unimplemented!() }
 }
+// "the run loop whose done token has this identity has finished" (handlers shut down, endpoint closed: the loop's tail,
+// quoted: protocols.shutdown().await; handler_cancel_token.cancel(); endpoint.close().await; join remaining tasks)
+pub uninterp spec fn run_finished(done_id: int) -> bool;
+// the run loop future (the `async move` block of RouterBuilder::spawn, whose accept arm is verified below as accept_arm)
+pub struct RunLoopFut { pub done_id: int }
+pub struct JoinHandle<T> { pub done_id: int, pub t: core::marker::PhantomData<T> }
+pub struct AbortOnDropHandle<T> { pub done_id: int, pub t: core::marker::PhantomData<T> }
+impl AbortOnDropHandle<()> {
+    #[verifier::external_body]
+    pub fn new(h: JoinHandle<()>) -> (r: AbortOnDropHandle<()>) ensures r.done_id == h.done_id { unimplemented!() }
+}
+// rule R19: `let run_loop_fut = async move { let _done_guard = done_token.drop_guard(); ... }` — the block arms the drop
+// guard of the done token it captures as its first statement.  That token MUST be independent: a child of the cancel
+// token would be cancelled by shutdown() itself, long before the loop has finished.
+#[verifier::external_body]
+pub fn make_run_loop(done_token: CancellationToken, cancel_token: CancellationToken, join_set: JoinSet, endpoint: Endpoint, protocols: Arc<ProtocolMap>, incoming_filter: Option<IncomingFilter>) -> (r: RunLoopFut)
+    requires done_token.parent is None   // [C41]
+    ensures r.done_id == done_token.id
+{ unimplemented!() }
+// rule R19: `task::spawn(run_loop_fut.instrument(tracing::Span::current()))`
+#[verifier::external_body]
+pub fn spawn_task(f: RunLoopFut) -> (r: JoinHandle<()>) ensures r.done_id == f.done_id { unimplemented!() }
+// awaiting the handle: Ok means that task ran to completion
+#[verifier::external_body]
+pub async fn await_handle(h: AbortOnDropHandle<()>) -> (r: Result<(), n0_future::task::JoinError>)
+    ensures r is Ok ==> run_finished(h.done_id)
+{ unimplemented!() }
 pub struct PoisonError;
 #[verifier::external] impl core::fmt::Debug for PoisonError { fn fmt(&self, f: &mut core::fmt::Formatter<'_>) -> core::fmt::Result { Ok(()) } }
-pub struct Mutex<T> { pub t: T }
-pub struct MutexGuard<'a> { pub m: &'a Mutex<Option<AbortOnDropHandle<()>>> }
+// std Mutex around the task slot; ghost: which run loop's handle was put into the slot (it stays that one or is taken)
+#[verifier::external_body]
+#[verifier::reject_recursive_types(T)]
+pub struct Mutex<T> { t: core::marker::PhantomData<T> }
 impl Mutex<Option<AbortOnDropHandle<()>>> {
+    pub uninterp spec fn slot_done_id(&self) -> int;
+    #[verifier::external_body]
+    pub fn new(v: Option<AbortOnDropHandle<()>>) -> (r: Self) ensures v matches Some(h) ==> r.slot_done_id() == h.done_id { unimplemented!() }
     // ASSUMPTION: the lock is not poisoned (a poisoned lock means another thread already panicked)
     #[verifier::external_body]
     pub fn lock<'a>(&'a self) -> (r: Result<MutexGuard<'a>, PoisonError>) ensures r matches Ok(g) && *g.m == *self { unimplemented!() }
 }
+pub struct MutexGuard<'a> { pub m: &'a Mutex<Option<AbortOnDropHandle<()>>> }
 impl<'a> MutexGuard<'a> {
-    // Option::take through the guard: whatever handle is in the slot, if any, is the router's run task
+    // Option::take through the guard: whatever handle is in the slot, if any, is the one that was put there
     #[verifier::external_body]
     pub fn take(&mut self) -> (r: Option<AbortOnDropHandle<()>>)
-        ensures r matches Some(h) ==> forall|ro: Router| task_slot_of(*old(self).m, ro) ==> is_run_task_of(h, ro)
+        ensures r matches Some(h) ==> h.done_id == old(self).m.slot_done_id()
     { unimplemented!() }
 }
 //@item iroh/src/protocol.rs struct Router pubfields
+//@item iroh/src/protocol.rs struct RouterBuilder pubfields
+// what RouterBuilder::spawn must establish and Router::shutdown may rely on: the done token is an independent token,
+// and the task in the slot is the run loop that owns (a clone of) exactly this done token
 pub open spec fn router_wf(r: Router) -> bool {
-    task_slot_of(*r.task, r) && done_token_of(r.done_token, r)
+    r.done_token.parent is None && r.task.slot_done_id() == r.done_token.id
+}
+#[verifier::external_body]
+pub fn collect_alpns(p: &ProtocolMap) -> Vec<Vec<u8>> { unimplemented!() }
+
+impl RouterBuilder {
+//@fn iroh/src/protocol.rs RouterBuilder::spawn props=C41 ret=r
+//@| ensures router_wf(r)
+//@rwx R27 1
+//@- (?s)let alpns = self\s*\.protocols\s*\.alpns\(\)\s*\.map\(\|alpn\| alpn\.to_vec\(\)\)\s*\.collect::<Vec<_>>\(\);
+//@+ let alpns = collect_alpns(&self.protocols);
+//@rwx R19 1
+//@- (?s)let run_loop_fut = async move \{.*?\n        \};\n(\s*let task = )
+//@+ let run_loop_fut = make_run_loop(done_token, cancel_token, join_set, endpoint, protocols, incoming_filter);\n\1
+//@rw R19 1
+//@- task::spawn(run_loop_fut.instrument(tracing::Span::current()))
+//@+ spawn_task(run_loop_fut)
+//@end
 }
 
 impl Router {
@@ -72,7 +129,7 @@ impl Router {
 
 //@fn iroh/src/protocol.rs Router::shutdown props=C41 ret=r
 //@| requires router_wf(*self)
-//@| ensures r is Ok ==> run_finished(*self)
+//@| ensures r is Ok ==> run_finished(self.done_token.id)
 //@rw R19 1
 //@- task.await?;
 //@+ await_handle(task).await?;
@@ -143,11 +200,9 @@ impl IncomingFilter {
     #[verifier::external_body]
     pub fn call(&self, inc: &Incoming) -> (r: IncomingFilterOutcome) ensures r == verdict(*self, *inc) { unimplemented!() }
 }
-impl CancellationToken {
-    #[verifier::external_body] pub fn child_token(&self) -> CancellationToken { unimplemented!() }
-}
 // the set of connection tasks: ghost log of the incoming connections handed to handle_connection
 pub struct JoinSet { pub handled: Seq<Incoming> }
+impl JoinSet { #[verifier::external_body] pub fn new() -> (r: JoinSet) ensures r.handled.len() == 0 { unimplemented!() } }
 // an incoming connection may be handed to handle_connection (and from there to a protocol handler) only if there is
 // no filter or the filter's verdict on THIS incoming connection is Accept
 pub open spec fn admitted(filter: Option<IncomingFilter>, inc: Incoming) -> bool {
